@@ -145,13 +145,12 @@ func (m *Manager) handlePotentialHeader(ctx context.Context, bz []byte, daHeight
 	m.sendNonBlockingSignalToDAIncluderCh()
 	m.logger.Info("header marked as DA included, headerHeight: ", header.Height(), "headerHash: ", headerHash)
 	if !m.headerCache.IsSeen(headerHash) {
+		// hand the header to sync, but never wait for a full channel through a stop request
 		select {
 		case <-ctx.Done():
 			return true
-		default:
-			m.logger.Warn("headerInCh backlog full, dropping header: daHeight ", daHeight)
+		case m.headerInCh <- NewHeaderEvent{header, daHeight}:
 		}
-		m.headerInCh <- NewHeaderEvent{header, daHeight}
 	}
 	return true
 }
@@ -183,10 +182,8 @@ func (m *Manager) handlePotentialData(ctx context.Context, bz []byte, daHeight u
 		select {
 		case <-ctx.Done():
 			return
-		default:
-			m.logger.Warn("dataInCh backlog full, dropping signed data", "daHeight", daHeight)
+		case m.dataInCh <- NewDataEvent{&signedData.Data, daHeight}:
 		}
-		m.dataInCh <- NewDataEvent{&signedData.Data, daHeight}
 	}
 }
 
